@@ -199,6 +199,9 @@ def run(rep, F, ctx):
     lock_once(rep, F, A)
     snapshot(rep, F, A)
     panics.no_panic_under_guard(rep, F, A, write_only=False)
+    import siteguard as _sg
+    _t = engine.load_table('site_guards.json')
+    _sg.site_guard(rep, F, A.cg, _t, _t['_groups']['C04'])
     return engine.finish(
         rep, 'other', EXPLANATION,
         assumptions=['user-supplied AsRef<Path>/AsRef<[u8]>/AsRef<str> implementations and their destructors do not re-enter the same Memfs',
